@@ -181,4 +181,19 @@ def applyBatchM {β κ : Type} (F : LoopFacts) (mutate : State β → Nat → κ
   if r.1.rev = 0 then (sm, r.2)
   else ({ published := r.1, file := some r.1 }, r.2)
 
+/-! ### snapshot install (pkg/controller/raft/apply_scheduler.go: applyJob) -/
+
+/-- regenerated: the decoded payload's AppliedRaftIndex is raised to the snapshot
+    metadata index only if it is LOWER (`true`), or overwritten (`false`) -/
+structure RestoreFacts where
+  raiseOnlyIfLower : Bool := true
+deriving Repr, DecidableEq
+
+/-- `state.Decode(snapshot.Data)`, reconcile the applied index with the snapshot
+    metadata index, `StateMachine.Restore` (save if initialised, publish). -/
+def restoreSnapshot {β : Type} (R : RestoreFacts) (sm : SM β) (payload : State β) (metaIdx : Nat) : SM β :=
+  let a := if R.raiseOnlyIfLower then (if payload.applied < metaIdx then metaIdx else payload.applied) else metaIdx
+  let st : State β := { payload with applied := a }
+  if st.rev ≠ 0 then { published := st, file := some st } else { published := st, file := sm.file }
+
 end WK.C18
